@@ -4,6 +4,7 @@ import GoSSE.Gen.Replay
 import GoSSE.Gen.Unmarshal
 import GoSSE.Gen.Write
 import GoSSE.Proofs.GenEquivWrite
+import GoSSE.Proofs.GenEquivFieldRoutes
 /-!
 Ops that run the *translated* replayers (`GoSSE/Gen/Replay.lean`: `FiniteReplayer.Put/Replay`, `ValidReplayer.Put/GC/Replay`
 with `ensureID`, `findIDInQueue`, `queue.each` …, regenerated from /repo's replay.go on every run) over whole histories:
@@ -233,10 +234,47 @@ def gwt (args : List String) : String × String :=
     | .ok s => (s, hand)
   | _ => ("bad-args", "bad-args")
 
+/-! ### `(*messageField).Scan` and `UnmarshalJSON` as translated -/
+
+def fErrOfStr : Option String → Model.FErr
+  | none => .nil
+  | some "json.Unmarshal" => .json
+  | some "input is multiline" => .multiline
+  | some _ => .unsupported
+
+/-- `GFLD <route> <args of FLD>` for the routes `scan-*` and `json-*`: model column = the translated method, specification
+column = the hand-written model's answer (the model column of `FLD`) -/
+def gfld (args : List String) : String × String :=
+  let hand := (Driver.MessageD.fld args).1
+  let go := Driver.MessageD.goField args
+  let gj := Driver.MessageD.kv go "J"
+  let a := Driver.MessageD.dropGo args
+  let route := a.headD ""
+  let isType := route.endsWith "type"
+  let arg1 := (a.drop 1).headD "-"
+  let arg2 := (a.drop 2).headD "-"
+  let prevG := GenEquiv.toGenF Driver.MessageD.prevField
+  let out (r : Option String × Gen.messageField) (j : String) : String :=
+    let f : Model.MField := { value := r.2.value, set := r.2.set }
+    s!"{showBool f.set} {hex f.value} {Driver.MessageD.showFErr (fErrOfStr r.1)} W={hex (Driver.MessageD.wireOf isType f)}" ++ (if j.isEmpty then "" else " J=" ++ j)
+  if route == "scan-id" || route == "scan-type" then
+    let src : AnyV := match arg1 with
+      | "nil" => .nil | "bytes" => .bytes (unhex arg2) | "string" => .str (unhex arg2) | _ => .other
+    match Gen.messageField_Scan ((unhex arg2).length + 10) prevG src with
+    | .error e => (showFault e, hand)
+    | .ok r => (out r "", hand)
+  else if route == "json-id" || route == "json-type" then
+    let dec := if gj == "!" || gj == "" then none else some (unhex gj)
+    match Gen.messageField_UnmarshalJSON ((dec.getD []).length + 10) prevG (unhex arg1) (fun _ => dec) with
+    | .error e => (showFault e, hand)
+    | .ok r => (out r gj, hand)
+  else ("bad-route", "bad-route")
+
 def handle (op : String) (args : List String) : Option (String × String) :=
   match op with
   | "GUT" => some (gut args)
   | "GWT" => some (gwt args)
+  | "GFLD" => some (gfld args)
   | "GFINITE" => some (gfinite args)
   | "GVALID" => some (gvalid args)
   | _ => none
